@@ -278,6 +278,70 @@ def salt_bridge_twins():
     return [setcols(setcols(l, 22, 26, " 210"), 26, 27, "A") if is_atom(l) and l[17:20] == "LYS" and l[22:26] == " 251" else l for l in lines_of(t)]
 
 
+def coupled_in_one_conformation():
+    """1HPX with two alternate locations of the ASP B 25 carboxylate: B as deposited (ASP 25 A and ASP 25 B are non-covalently
+    coupled), A turned by 180 degrees about CA-CB (they are not): the coupling exists in the second conformation only"""
+    t = dict(test_files(["1HPX"]))["1HPX"]
+    ls = lines_of(t)
+    sel = lambda nm: [l for l in ls if l.startswith("ATOM") and l[21] == "B" and l[22:26] == "  25" and l[12:16].strip() == nm][0]
+    ca, cb = coords(sel("CA")), coords(sel("CB"))
+    ax = [cb[i] - ca[i] for i in range(3)]
+    n2 = sum(q * q for q in ax)
+    out = []
+    for l in ls:
+        if l.startswith("ATOM") and l[21] == "B" and l[22:26] == "  25" and l[12:16].strip() in ("CG", "OD1", "OD2"):
+            v = [coords(l)[i] - ca[i] for i in range(3)]
+            k = sum(v[i] * ax[i] for i in range(3)) / n2
+            w = [2 * k * ax[i] - v[i] + ca[i] for i in range(3)]
+            out.append(set_coords(setcols(l, 16, 17, "A"), round(w[0], 3), round(w[1], 3), round(w[2], 3)))
+            out.append(setcols(l, 16, 17, "B"))
+        else:
+            out.append(l)
+    return out
+
+
+def nterm_asp_fragment():
+    """residues 7-13 of 3SGB chain I: the chain starts with an aspartate, whose side chain the program couples covalently
+    to the amino group and penalises (finding D20) - a titratable group that is left out of the printed tables"""
+    t = dict(test_files(["3SGB"]))["3SGB"]
+    return [l for l in lines_of(t) if l.startswith("ATOM") and l[21] == "I" and l[26] == " " and 7 <= int(l[22:26]) <= 13] + ["TER   \n"]
+
+
+def add_pyridine(rng, lines, dist=2.9):
+    """a pyridine (HETATM residue PYR, chain of the target) whose ring nitrogen accepts the hydrogen bond of a backbone
+    amide: N1 sits `dist` A from a backbone N on the bisector direction of its N-H bond, the ring extends away from it.
+    Returns None if no residue with a preceding carbonyl carbon is found."""
+    items = split_residues(lines)
+    res = [it for it in items if it[0] == "res" and it[2][0].startswith("ATOM")]
+    cands = []
+    for a, b in zip(res, res[1:]):
+        if a[1][0] != b[1][0] or b[1][3] == "PRO":
+            continue
+        c = [l for l in a[2] if l[12:16].strip() == "C"]
+        n = [l for l in b[2] if l[12:16].strip() == "N"]
+        ca = [l for l in b[2] if l[12:16].strip() == "CA"]
+        if c and n and ca:
+            cands.append((coords(c[0]), coords(n[0]), coords(ca[0]), b[1][0]))
+    if not cands:
+        return None
+    c, n, ca, chain = cands[rng.randrange(len(cands))]
+    def unit(v):
+        r = sum(q * q for q in v) ** 0.5
+        return [q / r for q in v]
+    h = unit([p + q for p, q in zip(unit([n[i] - c[i] for i in range(3)]), unit([n[i] - ca[i] for i in range(3)]))])
+    t = [1.0, 0.0, 0.0] if abs(h[0]) < 0.9 else [0.0, 1.0, 0.0]
+    d = sum(p * q for p, q in zip(t, h))
+    p = unit([t[i] - d * h[i] for i in range(3)])
+    import math
+    centre = [n[i] + (dist + 1.39) * h[i] for i in range(3)]
+    out = list(lines)
+    for k, name in enumerate(["N1", "C2", "C3", "C4", "C5", "C6"]):
+        th = math.radians(60.0 * k)
+        q = [centre[i] + 1.39 * (-math.cos(th) * h[i] + math.sin(th) * p[i]) for i in range(3)]
+        out.append("HETATM%5d  %-3s PYR %1s 950    %8.3f%8.3f%8.3f  1.00  0.00           %1s\n" % (9100 + k, name, chain, q[0], q[1], q[2], name[0]))
+    return out
+
+
 def ss_fragment():
     """two short peptides of 3SGB joined by the Cys 42 - Cys 58 disulfide bridge (chain E residues 41-43 and 56-59)"""
     t = dict(test_files(["3SGB"]))["3SGB"]
